@@ -204,6 +204,7 @@ type eventList struct {
 	seqs    sequenceNumSlice
 	events  map[sequenceNum]*event
 	lastSeq sequenceNum
+	hasLast bool // hasLast is set once lastSeq holds a delivered sequence number.
 	maxSize int
 	timeout time.Duration
 }
@@ -226,6 +227,24 @@ func (l *eventList) remove() {
 	}
 }
 
+// advance records seq as delivered and returns how many sequence numbers were
+// skipped since the previous in-order delivery. Sequence numbers that are not
+// after lastSeq (late or duplicate events) are not counted and do not move
+// lastSeq backwards. The comparison is roll-over aware.
+func (l *eventList) advance(seq sequenceNum) int {
+	if !l.hasLast {
+		l.hasLast = true
+		l.lastSeq = seq
+		return 0
+	}
+	diff := uint32(seq - l.lastSeq)
+	if diff == 0 || diff > 1<<31 {
+		return 0
+	}
+	l.lastSeq = seq
+	return int(diff - 1)
+}
+
 // Clear removes all events from the list and returns the events and the number
 // of list events.
 func (l *eventList) Clear() ([]*event, int) {
@@ -245,10 +264,7 @@ func (l *eventList) Clear() ([]*event, int) {
 		seq = l.seqs[0]
 		event := l.events[seq]
 
-		if l.lastSeq > 0 {
-			lost += int(seq - l.lastSeq - 1)
-		}
-		l.lastSeq = seq
+		lost += l.advance(seq)
 		evicted = append(evicted, event)
 		l.remove()
 	}
@@ -304,10 +320,7 @@ func (l *eventList) CleanUp() ([]*event, int) {
 		event := l.events[seq]
 
 		if event.complete || size > l.maxSize || event.IsExpired() {
-			if l.lastSeq > 0 {
-				lost += int(seq - l.lastSeq - 1)
-			}
-			l.lastSeq = seq
+			lost += l.advance(seq)
 			evicted = append(evicted, event)
 			l.remove()
 			continue
